@@ -424,6 +424,29 @@ tasks:
   script:
     cmds:
       - ./dump.sh {{.CLI_ARGS}}
+  direct:
+    cmds:
+      - '"$VERIF_ARGVDUMP" "$OUT" {{q .X}}'
+  viaref:
+    vars:
+      Y: {ref: .X}
+    cmds:
+      - '"$VERIF_ARGVDUMP" "$OUT" {{q .Y}}'
+  viash:
+    vars:
+      Z: {sh: 'printf "%s" "$X"'}
+    cmds:
+      - '"$VERIF_ARGVDUMP" "$OUT" {{q .Z}}'
+  viashref:
+    vars:
+      Z: {sh: 'printf "%s" "$X"'}
+      Y: {ref: .Z}
+    cmds:
+      - '"$VERIF_ARGVDUMP" "$OUT" {{q .Y}}'
+  viacall:
+    cmds:
+      - task: direct
+        vars: {X: {ref: .X}}
 `
 	return &Unit{Name: name, Weight: 1, Custom: func(u *Unit, dir string, deadline time.Time) *vlab.UnitResult {
 		res := &vlab.UnitResult{SigCounts: map[string]int{}, Extra: map[string]any{}}
@@ -453,6 +476,21 @@ tasks:
 			}
 			if rc != 0 || !ok || len(got) != 1 || got[0] != c[1] {
 				add(vlab.V("C19", "quoted_value_not_verbatim", "from_dynamic_variable", fmt.Sprintf("dynamic variable whose command prints %q: the command received %s, expected [%q] (status %d %q)", c[0], short(got), c[1], rc, firstN(se, 120))), args)
+			}
+		}
+		// values with template characters that reach a variable from the process environment or from a
+		// command's output (never through a NAME=value argument), directly, through a reference, and
+		// through a reference passed on to a called task
+		for _, val := range []string{"{{.G}}", "a{{.NOPE}}b", "{{", `}} {{"`, "{{/* c */}}x", "plain $(id) *"} {
+			for _, tk := range []string{"direct", "viaref", "viash", "viashref", "viacall"} {
+				os.Remove(out)
+				args := []string{tk}
+				_, se, rc := RunCLI(dir, []string{"OUT=" + out, "VERIF_ARGVDUMP=" + os.Getenv("VERIF_ARGVDUMP"), "X=" + val, "G=gee"}, "", args...)
+				n++
+				got, ok := readArgv(out)
+				if rc != 0 || !ok || len(got) != 1 || got[0] != val {
+					add(vlab.V("C19", "quoted_value_not_verbatim", "template_chars_from_environment:"+tk, fmt.Sprintf("X=%q in the environment, task %s: the command received %s (status %d %q)", val, tk, short(got), rc, firstN(se, 120))), args)
+				}
 			}
 		}
 		for _, vec := range [][]string{{"plain"}, {"-n", "x"}, {"-x"}, {"--", "a"}, {"+e", "b"}, {"-e", "-u", "c d"}, {"--verbose"}} {
